@@ -396,7 +396,7 @@ def known_functions():
             data = json.load(fh)
         _KNOWN = {k: set(v) for k, v in data['functions'].items()}
         _KNOWN_EXTRA.update({'digests': data.get('digests', {}), 'attrs': data.get('attrs', {}), 'constants': data.get('constants', {}), 'shapes': data.get('shapes', {}),
-                             'params': data.get('params', {})})
+                             'params': data.get('params', {}), 'features': data.get('features', {})})
     return _KNOWN
 
 
@@ -476,6 +476,21 @@ def fn_shape(node):
     _V().visit(n)
     text = ast.dump(n.args) + '|' + '|'.join(ast.dump(b) for b in n.body)
     return hashlib.md5(text.encode('utf8')).hexdigest()[:16]
+
+
+def fn_features(node):
+    """what a function does, as a set of words: the attributes it reaches, the functions it calls by name, its short string constants"""
+    out = set()
+    body = [b for b in node.body if not (isinstance(b, ast.Expr) and isinstance(b.value, ast.Constant) and isinstance(b.value.value, str))]
+    for b in body:
+        for x in ast.walk(b):
+            if isinstance(x, ast.Attribute):
+                out.add('.' + x.attr)
+            elif isinstance(x, ast.Call) and isinstance(x.func, ast.Name):
+                out.add(x.func.id + '()')
+            elif isinstance(x, ast.Constant) and isinstance(x.value, str) and 0 < len(x.value) <= 24:
+                out.add(repr(x.value))
+    return sorted(out)
 
 
 def _toplevel(body):
@@ -668,19 +683,21 @@ class _InlineNewHelpers(_InlineMethods):
     """expand, in every function of a module, the calls of same-module functions and same-class methods that are not in the table of known
     functions (extract-function refactorings)"""
 
-    def __init__(self, tree, known, foreign=None, modname='', is_pkg=False, known_digests=None, known_params=None):
+    def __init__(self, tree, known, foreign=None, modname='', is_pkg=False, known_digests=None, known_params=None, known_features=None):
         _InlineMethods.__init__(self, tree)
         self.known = known
         # hosts that HAD a nested function which is gone now: only there a new helper can be a lifted closure
         now = function_table(tree)
         self.lost_nested = {}
         self.lost_params = {}
+        self.lost_features = {}
         for q in (known_digests or {}):
             if q.count('.') >= 1 and q not in now:
                 hostq = q.rsplit('.', 1)[0]
                 if hostq in now and hostq in known_digests:
                     self.lost_nested.setdefault(id(now[hostq]), []).append(q.rsplit('.', 1)[1])
                     self.lost_params.setdefault(id(now[hostq]), []).append((known_params or {}).get(q))
+                    self.lost_features.setdefault(id(now[hostq]), []).append(set((known_features or {}).get(q) or ()))
         self.hcount = [0]
         self.foreign = foreign or {}
         self.modname = modname
@@ -791,6 +808,17 @@ class _InlineNewHelpers(_InlineMethods):
                 continue
             if not self.lost_nested.get(id(G)):
                 continue        # nothing was lifted out of this function: a helper called twice is a duplicated block, it is expanded at both places
+            # ... and it must do what one of the lost nested functions did (half of the words they use in common), or it is just a new helper
+            mine = set(fn_features(H))
+            sims = [len(mine & fs) / float(len(mine | fs) or 1) for fs in self.lost_features.get(id(G), [])]
+            hp = [a.arg for a in H.args.posonlyargs + H.args.args + H.args.kwonlyargs]
+
+            def subsequence(small, big):
+                it = iter(big)
+                return all(x in it for x in small)
+            keeps_params = any(pl and subsequence(pl, hp) for pl in self.lost_params.get(id(G), []) if pl is not None)
+            if not keeps_params and (not sims or max(sims) < 0.5):
+                continue
             self.lost_nested[id(G)].pop()
             plain = [a.arg for a in H.args.posonlyargs + H.args.args]
             recv_m = None
@@ -1169,6 +1197,7 @@ class _InlineNewHelpers(_InlineMethods):
         arg_names = {p_: {x.id for x in ast.walk(a) if isinstance(x, ast.Name)} for p_, a in bound.items()}
         mapping = {}
         subst = {}
+        helper_names = {x.id for b in body for x in ast.walk(b) if isinstance(x, ast.Name)} | set(params)
         if has_recv:
             mapping[recv_m] = host.args.args[0].arg
         pre = []
@@ -1179,6 +1208,10 @@ class _InlineNewHelpers(_InlineMethods):
                 continue
             if p_ not in stored and _is_pure_path(a):
                 subst[p_] = a           # a parameter that is only read stands for the plain expression it was given
+                continue
+            if isinstance(a, ast.Name) and a.id in tnames and a.id not in helper_names and list(arg_names.values()).count({a.id}) == 1:
+                # `x = helper(x)`: the helper works on its parameter and hands it back; the host's x is replaced by the result anyway
+                mapping[p_] = a.id
                 continue
             keep = (p_ not in host_names or p_ in tnames) and not any(p_ in ns for q, ns in arg_names.items() if q != p_)
             mapping[p_] = p_ if keep else tag + p_
@@ -1911,7 +1944,7 @@ class Module:
             _localise_new_constants(raw, set(kc))
         self.tree = ast.fix_missing_locations(_Desugar().visit(raw))
         known = known_functions().get(relpath)
-        if known is not None and _InlineNewHelpers(self.tree, known, foreign=foreign, modname=name, is_pkg=relpath.endswith('__init__.py'), known_digests=kd, known_params=_KNOWN_EXTRA.get('params', {}).get(relpath)).run():
+        if known is not None and _InlineNewHelpers(self.tree, known, foreign=foreign, modname=name, is_pkg=relpath.endswith('__init__.py'), known_digests=kd, known_params=_KNOWN_EXTRA.get('params', {}).get(relpath), known_features=_KNOWN_EXTRA.get('features', {}).get(relpath)).run():
             ast.fix_missing_locations(self.tree)
         if any(isinstance(n, ast.ClassDef) and any(n.name == c for (c, _m) in INLINE_HOSTS) for n in self.tree.body):
             _InlineMethods(self.tree).run()
